@@ -295,7 +295,7 @@ def _md(a, b):
         return float(x.max()) if x.size else 0.0
 
 
-def check_polynomial(ctx, mesh, dname, ax, dx, order, periodic, valid, cls):
+def check_polynomial(ctx, mesh, dname, ax, dx, order, periodic, valid, cls, junk=None):
     """Exactness / zero rules on every run of every grid line (vectorised by hand).
 
     Component c holds  g(other coordinates) * P_c(u) + h(other coordinates)  with P_c a
@@ -356,12 +356,21 @@ def check_polynomial(ctx, mesh, dname, ax, dx, order, periodic, valid, cls):
         wraps[line] = wl
         claimed[line] = cl
     info = dict(cls, order=order, axis=dname, n=n, cell=dx, integer_dtype=as_int)
+    stored = arr
+    if not valid.all() and (junk or (junk is None and rng.random() < 0.6)):
+        # whatever sits in the invalid cells must not matter: the polynomial does not
+        # continue through the gaps (a result computed across a gap is then visibly wrong)
+        stored = arr.copy()
+        k = int((~valid).sum())
+        junk = rng.normal(size=(k, ndeg)) * (np.max(np.abs(arr)) + 1.0) * 10.0 ** rng.uniform(0, 2)
+        stored[~valid] = np.rint(junk) if as_int else junk
+        info["junk_in_invalid_cells"] = True
     if as_int:
         dt = gen.pick(rng, [int, np.int64, np.int32])
-        f = mk_field(mesh, np.rint(arr).astype(np.int64), valid, dtype=dt)
+        f = mk_field(mesh, np.rint(stored).astype(np.int64), valid, dtype=dt)
         ctx.event("integer_typed_fields")
     else:
-        f = mk_field(mesh, arr, valid)
+        f = mk_field(mesh, stored, valid)
     okc, dfield = ctx.expect_ok("C04.diff.accepted",
                                 lambda: f.diff(dname, order=order), what=info)
     if not okc:
@@ -558,7 +567,7 @@ def large_nd(ctx):
     order = int(rng.integers(1, 3))
     nt = tuple(int(k) for k in n)
     valid = np.ones(nt, dtype=bool)
-    holes = rng.random() < 0.6
+    holes = rng.random() < 0.85
     if holes:
         other_shape = tuple(k for j, k in enumerate(nt) if j != ax)
         for oidx in np.ndindex(*other_shape):
@@ -572,7 +581,7 @@ def large_nd(ctx):
     ctx.sig(("large", nd, ax, order, periodic, holes), nontrivial=True)
     ctx.sample(dict(cls, order=order, axis=dname, **spec.describe()))
     ctx.event("large_meshes")
-    check_polynomial(ctx, mesh, dname, ax, dx, order, periodic, valid, cls)
+    check_polynomial(ctx, mesh, dname, ax, dx, order, periodic, valid, cls, junk=True)
 
 
 def run_case(ctx, i):
